@@ -92,7 +92,13 @@ Definition contract_slice (code : bvec) (start size : nat) : bvec :=
 (* ---- one frame ---- *)
 
 Record mframe : Type := MF { m_mem : bvec; m_rd : bvec }.
-Record menv : Type := ME { m_cd : bvec; m_code : bvec }.
+(* m_cd: the data of the frame's message; m_create: the message is a CREATE / CREATE2 (its data
+   is then the init code, and the frame's calldata is empty) *)
+Record menv : Type := ME { m_cd : bvec; m_code : bvec; m_create : bool }.
+
+(* Message.calldata_slice: data = ByteVec() if self.is_create() else self.data *)
+Definition frame_calldata (e : menv) : bvec :=
+  if m_create e && calldata_empty_in_create 0%Z then empty else m_cd e.
 
 Inductive msrc : Type :=
 | MCalldata
@@ -123,7 +129,7 @@ Definition mb_apply (e : menv) (st : mframe) (o : mbop) : mres mframe :=
       (* if size: data = ex.message().calldata_slice(offset, size) ; state.set_mslice(loc, data) *)
       if zb3 calldatacopy_do loc off size then
         lift st (set_mslice mem (zn3 calldatacopy_dst loc off size)
-                   (calldata_slice (m_cd e) (zn3 calldatacopy_a1 loc off size) (zn3 calldatacopy_a2 loc off size)))
+                   (calldata_slice (frame_calldata e) (zn3 calldatacopy_a1 loc off size) (zn3 calldatacopy_a2 loc off size)))
       else ROk st
   | MCopyIn MCode loc off size =>
       (* if size: codeslice = ex.pgm.slice(int(offset), size) ; state.set_mslice(loc, codeslice) *)
@@ -192,7 +198,23 @@ Definition copy_returndata_to_memory (rd : bvec) (ret_loc ret_size : nat) (mem :
 
 Inductive mop : Type :=
 | MB (o : mbop)
-| MCall (ccode : bvec) (aloc asize : nat) (body : list mbop) (roff rsize : nat) (oloc osize : nat).
+| MCall (ccode : bvec) (aloc asize : nat) (body : list mbop) (roff rsize : nat) (oloc osize : nat)
+| MCreate (loc size : nat) (body : list mbop) (roff rsize : nat) (reverts : bool).
+
+(* SEVM.create: create_hexcode = ex.st.mslice(loc, size) ; create_code = Contract(create_hexcode) ;
+   Message(data=create_hexcode, call_scheme=op) ; the init frame starts with State() *)
+Definition init_frame (mem : bvec) (loc size : nat) (body : list mbop) : mres mframe :=
+  let hex := mslice mem loc size in
+  mb_run (ME hex hex true) (MF empty empty) body.
+
+(* the code of the new account: deployed_bytecode = subcall.output.data (RETURN: ex.ret());
+   None = nothing is deployed (exceptional halt) *)
+Definition m_created (mem : bvec) (loc size : nat) (body : list mbop) (roff rsize : nat) : mres (option bvec) :=
+  match init_frame mem loc size body with
+  | ROk cst => ROk (Some (mslice (m_mem cst) roff rsize))
+  | RHalt => ROk None
+  | RErr => RErr
+  end.
 
 (* arg = ex.st.mslice(arg_loc, arg_size); the callee starts with an empty memory and
    EMPTY_BYTES as returndata; RETURN / REVERT: ex.halt(data=ex.ret()) with
@@ -200,10 +222,19 @@ Inductive mop : Type :=
 Definition m_apply (e : menv) (st : mframe) (o : mop) : mres mframe :=
   match o with
   | MB b => mb_apply e st b
+  | MCreate loc size body roff rsize reverts =>
+      (* callback: new_ex.st = deepcopy(ex.st): the creator's memory is what it was;
+         Exec.returndata(): EMPTY_BYTES after a creation without error, else output.data
+         (REVERT: ex.ret(); an exceptional halt: ByteVec()) *)
+      match init_frame (m_mem st) loc size body with
+      | ROk cst => ROk (MF (m_mem st) (if reverts then mslice (m_mem cst) roff rsize else empty))
+      | RHalt => ROk (MF (m_mem st) empty)
+      | RErr => RErr
+      end
   | MCall ccode aloc asize body roff rsize oloc osize =>
       let arg := mslice (m_mem st) aloc asize in
       match
-        match mb_run (ME arg ccode) (MF empty empty) body with
+        match mb_run (ME arg ccode false) (MF empty empty) body with
         | ROk cst => Some (mslice (m_mem cst) roff rsize)
         | RHalt => Some empty
         | RErr => None
@@ -248,6 +279,7 @@ Definition mop_ok (o : mop) : Prop :=
   match o with
   | MB b => mbop_ok b
   | MCall ccode _ _ body _ _ _ _ => wf ccode /\ Forall mbop_ok body
+  | MCreate _ _ body _ _ _ => Forall mbop_ok body
   end.
 
 (* ---- what the operations mean on flat arrays (Spec/MemSpec.v): values and sources are
@@ -276,10 +308,11 @@ Definition abs_mop (o : mop) : fop B :=
   | MB b => FB (abs_mbop b)
   | MCall ccode aloc asize body roff rsize oloc osize =>
       FCall (flat ccode) aloc asize (map abs_mbop body) roff rsize oloc osize
+  | MCreate loc size body roff rsize reverts => FCreate loc size (map abs_mbop body) roff rsize reverts
   end.
 
 Definition abs_frame (st : mframe) : fframe B := FF (flat (m_mem st)) (flat (m_rd st)).
-Definition abs_env (e : menv) : fenv B := FE (flat (m_cd e)) (flat (m_code e)).
+Definition abs_env (e : menv) : fenv B := FE (if m_create e then [] else flat (m_cd e)) (flat (m_code e)).
 
 End MemOps.
 
@@ -292,6 +325,8 @@ Arguments m_mem {B}.
 Arguments m_rd {B}.
 Arguments m_cd {B}.
 Arguments m_code {B}.
+Arguments m_create {B}.
+Arguments frame_calldata {B}.
 Arguments MCalldata {B}.
 Arguments MCode {B}.
 Arguments MExt {B}.
@@ -303,6 +338,9 @@ Arguments MMCopy {B}.
 Arguments MLoadStore {B}.
 Arguments MB {B}.
 Arguments MCall {B}.
+Arguments MCreate {B}.
+Arguments init_frame {B}.
+Arguments m_created {B}.
 Arguments of_bytes {B}.
 Arguments fastcode {B}.
 Arguments word_chunk {B}.
